@@ -94,7 +94,7 @@ def _run(ctx, base):
                          or (st[0] == "Rename" and X.is_data(st[1])) for st in steps_ok)
         ctx.case(key, nontrivial=nontrivial,
                  sample=dict(request=o, shape=sh, layout=list(lay), status=un["status"], steps=[X.fmt_step(s) for s in steps_ok[:12]]))
-        ctx.count("kind:" + un["request"]["kind"])
+        ctx.count("kind:" + (un["request"] or {}).get("kind", B.all_ops()[o]["kind"]))
         ctx.count("shape:" + sh)
         ctx.count("status:%s" % un["status"])
         ctx.traces_validated += 1
@@ -158,6 +158,50 @@ def _run(ctx, base):
                               signature="C12:fsync-failure:%s" % o)
         ctx.extra["fsync_failure_runs"] = len(fjobs)
         ctx.obligation("harness:fsync-injections-hit", missed <= max(1, len(fjobs) // 20), "%d of %d missed" % (missed, len(fjobs)))
+    # ---- a failed cache write must not switch syncing off for the rest of the process: fail a call of the item-cache
+    #      write, then the same process serves a PUT and a DELETE whose traces go through the durability monitor
+    cjobs, cmeta = [], []
+    cache_kinds = ("put_new", "put_over", "put_vcf") if ctx.quick else ("put_new", "put_over", "put_over_stale", "put_vcf", "move_cross", "delete_item")
+    for (sh, lay, o), rec in zip(cases, recs):
+        un = rec["un"]
+        if un.get("error") or o not in cache_kinds or un["status"] not in B.SUCCESS:
+            continue
+        if ctx.quick and not (sh == "warm" and tuple(lay) == (False, False)):
+            continue
+        cand = [i for i, (st, ok) in enumerate(un["steps"]) if ok and st[0] in ("Create", "Write", "Rename")
+                and any(nm[0] in ("CItem", "CHist") for nm in st[1])]
+        for j, i in enumerate(cand):
+            st = un["steps"][i][0]
+            name, ordinal = un["sys"][i][0]
+            err = "EIO" if j % 2 == 0 else "ENOSPC"
+            cjobs.append(dict(base=base, shape=sh, lay=lay, opname=o, tag="c-%s-%d%d-%s-%d" % (sh, lay[0], lay[1], o, i),
+                              inject=("fault", err, name, ordinal), pre_abs=un["pre_abs"], post_abs=un["post_abs"],
+                              list_before=un["list_before"], list_after=un["list_after"], names=un["names"],
+                              contents=un["contents"], durable_followups=True))
+            cmeta.append((o, sh, tuple(lay), X.fmt_step(st), err))
+    if cjobs:
+        ctx.log("failing cache writes + follow-ups: %d runs" % len(cjobs))
+        with C.pool() as p:
+            cres = p.map(B.inject_run, cjobs, chunksize=2)
+        checked = 0
+        for job, (o, sh, lay, what, err), res in zip(cjobs, cmeta, cres):
+            ctx.case(("cache-write-fails", o, sh, lay, what, err), nontrivial=True)
+            if not res["hit"]:
+                continue
+            for fd in res.get("followup_durability") or []:
+                if fd["status"] in B.SUCCESS and fd["request"].split()[0] in ("PUT", "DELETE", "PROPPATCH", "MOVE", "MKCOL", "MKCALENDAR"):
+                    checked += 1
+                if fd["verdict"]:
+                    ctx.violation("C12: after %s on store '%s' failed in the item-cache write ([%s] -> %s), the SAME server process "
+                                  "answered %s with %s but its system calls are not durable: %s" % (
+                                      o, sh, what, err, fd["request"], fd["status"], fd["verdict"]),
+                                  dict(request=B.http_of(B.all_ops()[o]), shape=sh, layout=list(lay), inject=list(job["inject"]),
+                                       failing=what, errno=err, followup=fd, durable_followups=True,
+                                       note="replay: ./check C12 --replay <this file>"),
+                                  signature="C12:followup-after-cache-failure:%s" % o)
+                    break
+        ctx.extra["followups_checked_for_durability"] = checked
+        ctx.count("followup-durability-checked", checked)
     ctx.obligation("correspondence:trace-vs-model", not bad_corr,
                    "" if not bad_corr else "; ".join("%s: %s" % (k, pr[0]) for k, pr in bad_corr[:6]))
     if bad_corr:
@@ -209,8 +253,13 @@ def replay(ctx, path):
             res = B.inject_run(dict(base=base, shape=r["shape"], lay=tuple(r["layout"]), opname=op[0], tag="replay",
                                     inject=tuple(r["inject"]), pre_abs=un["pre_abs"], post_abs=un["post_abs"],
                                     list_before=un["list_before"], list_after=un["list_after"], names=un["names"],
-                                    contents=un["contents"]))
+                                    contents=un["contents"], durable_followups=bool(r.get("durable_followups"))))
             print("failing:", r.get("failing"), r.get("errno"), "-> status", res["status"], "hit", res["hit"])
+            if r.get("durable_followups"):
+                bad = [fd for fd in res.get("followup_durability") or [] if fd["verdict"]]
+                for fd in res.get("followup_durability") or []:
+                    print("  follow-up", fd["request"], fd["status"], "durable" if not fd["verdict"] else fd["verdict"])
+                return 1 if bad else 0
             return 1 if res["status"] in B.SUCCESS else 0
         steps_ok = [st for st, ok in un["steps"] if ok]
         v = X.durable_monitor(steps_ok)
